@@ -330,6 +330,28 @@ func Persist(run *hx.Run, r *hx.Rng, kinds []string) {
 	}
 	kinds = persistKinds(kinds)
 	nsteps := r.Range(3, 7)
+	// siblings: results that share backing arrays with one receiver spoil EACH OTHER only when the same kind of
+	// call is made twice on that receiver (r1 := base.Append(x); r2 := base.Append(y)).  Half of the histories
+	// start with 2-4 calls of one operation on the base, with fresh parameters / partners of different sizes
+	// (small first or big first), on slices with room to grow into.
+	siblingOp := ""
+	siblings := 0
+	ascending := r.Bool()
+	if r.Bool() {
+		siblingOp = hx.Pick(r, []string{"append", "append", "append", "repeat", "weld", "set_attr", "set_indices", "translate", "scale3", "rotate",
+			"apply_trs", "unweld", "remove_unref", "filter", "slice", "flip", "set_materials", "scale_along_normal"})
+		siblings = r.Range(2, 4)
+		pd.Init = pd.Init[:1]
+		pd.Spare = []int{hx.Pick(r, []int{8, 16, 24, 64, 64})}
+		for i := 0; i < 3; i++ { // partners from small to big
+			pd.Init = append(pd.Init, Random(r, Options{Topo: base.Topo, FixTopo: true, MaxVerts: 3 + 5*i, MaxPrims: 1 + 3*i}))
+			pd.Spare = append(pd.Spare, hx.Pick(r, []int{0, 8, 64}))
+		}
+		if nsteps < siblings+1 {
+			nsteps = siblings + 1
+		}
+		run.Count("keep:siblings:" + siblingOp)
+	}
 	for s := 0; s < nsteps; s++ {
 		pool := execPersist(pd) // deterministic: the prefix executed so far
 		// the receiver: mostly the base or another value that was already used (branching), else the latest
@@ -345,10 +367,14 @@ func Persist(run *hx.Run, r *hx.Rng, kinds []string) {
 		if !pool[ai].exact {
 			ai = 0
 		}
+		stepKinds := kinds
+		if s < siblings {
+			ai, stepKinds = 0, []string{siblingOp}
+		}
 		d := pool[ai].was
 		var o OpDesc
 		for tries := 0; tries < 20; tries++ {
-			o = RandomOp(r, d, kinds)
+			o = RandomOp(r, d, stepKinds)
 			if suitable(o.Op, d) {
 				break
 			}
@@ -358,8 +384,11 @@ func Persist(run *hx.Run, r *hx.Rng, kinds []string) {
 		if o.Op == "append" {
 			// the partner: an initial partner mesh, any retained value, or the receiver itself
 			bi := r.Intn(len(pool))
-			if r.Chance(1, 2) && len(pd.Init) > 1 {
+			if (r.Chance(1, 2) || s < siblings) && len(pd.Init) > 1 {
 				bi = r.Range(1, len(pd.Init)-1)
+			}
+			if s < siblings && ascending && s+1 < len(pd.Init) {
+				bi = s + 1 // sibling appends with partners from small to big: the later, bigger one grows over the earlier
 			}
 			st.Args = []int{ai, bi}
 		}
